@@ -118,13 +118,17 @@ def frames_event(s, n, rng, via_solver=None):
     lens = [n // nj + (1 if i < n % nj else 0) for i in range(nj)]
     inst = [[{"ms": [rng.randint(1, 3)], "d": rng.randint(1, 4)} for _ in range(L)] for L in lens if L > 0]
     instance = model.build_instance(inst, name=f"frames{n}")
-    d = model.make_dispatcher(instance, [])
-    h = HistoryObserver(d)
-    nxt = [0] * len(inst)
-    while not d.schedule.is_complete():
-        j = rng.choice([x for x in range(len(inst)) if nxt[x] < len(inst[x])])
-        d.dispatch(instance.jobs[j][nxt[j]])
-        nxt[j] += 1
+    for _attempt in range(20):
+        d = model.make_dispatcher(instance, [])
+        h = HistoryObserver(d)
+        nxt = [0] * len(inst)
+        while not d.schedule.is_complete():
+            j = rng.choice([x for x in range(len(inst)) if nxt[x] < len(inst[x])])
+            d.dispatch(instance.jobs[j][nxt[j]])
+            nxt[j] += 1
+        # the interesting histories: the operation dispatched last is not the one that finishes last
+        if n < 3 or h.history[-1].end_time < d.schedule.makespan():
+            break
     tmp = tempfile.mkdtemp(prefix="verif_c20_", dir=str(_workdir()))
 
     def go():
